@@ -1077,10 +1077,10 @@ FAMILIES = [
                                          "src=equivalents", "tag-scored", "primitive"]),
     Family("pairs", eval_pairs, enumerate=enum_pairs, shards_quick=8, shards_thorough=12, exhaustive=True, setup=setup,
            required_labels=["pair-diff-class", "pair-equal", "check-true", "check-physical-scored", "pair-same-native-tag"]),
-    Family("params", eval_params, strategy=strat_params, n_quick=700, n_thorough=15000, shards_quick=3, shards_thorough=8,
+    Family("params", eval_params, strategy=strat_params, n_quick=1400, n_thorough=15000, shards_quick=3, shards_thorough=8,
            setup=setup, required_labels=["params-same", "params-differ", "fam=pandas/dttz", "fam=polars/datetime",
                                          "fam=pyspark/decimal"]),
-    Family("strings", eval_strings, strategy=strat_strings, n_quick=1500, n_thorough=30000, shards_quick=2,
+    Family("strings", eval_strings, strategy=strat_strings, n_quick=3000, n_thorough=30000, shards_quick=2,
            shards_thorough=8, setup=setup, required_labels=["string-resolves", "string-rejected"]),
     Family("fresh", eval_fresh, enumerate=enum_fresh, shards_quick=1, shards_thorough=1, exhaustive=True),
 ]
